@@ -35,7 +35,7 @@ template <int OP, Representation R> void s_le(Ctx& c) {
   c.run([&] {
     switch (OP) {
     case LE_ARITH: e += f; e -= Variable(rnd(0, n - 1)); e *= k1; e += k2; e -= f; neg_assign(e); out = e + f; out = out - k1 * f; break;
-    case LE_COMBINE: { Variable v(rnd(0, std::min((int) e.space_dimension(), (int) f.space_dimension()) - 1)); if (e.coefficient(v) == 0) e += k1 * v; if (f.coefficient(v) == 0) f += k2 * v; e.linear_combine(f, v); break; }
+    case LE_COMBINE: { Linear_Expression g(f, R); g.set_space_dimension(e.space_dimension()); e.linear_combine(g, k1, k2); e.linear_combine_lax(g, Coefficient(0), k1); break; }   // linear_combine(y, Variable) is declared but never defined
     case LE_COPY_CONVERT: { Linear_Expression a(e, O); Linear_Expression b(a, R); Linear_Expression d(e); out = b; out.m_swap(d); break; }
     case LE_DIMS: { e.set_space_dimension(n + rnd(1, 20)); Variables_Set vs; for (int i = 0; i < n; ++i) if (coin(30)) vs.insert(Variable(i)); e.remove_space_dimensions(vs); e.shift_space_dimensions(Variable(rnd(0, (int) e.space_dimension() > 0 ? (int) e.space_dimension() - 1 : 0)), rnd(1, 5)); break; }
     case LE_PERMUTE: { std::vector<Variable> cyc; std::vector<int> ids; for (int i = 0; i < n; ++i) ids.push_back(i); std::shuffle(ids.begin(), ids.end(), hx::rng()); for (int i = 0; i < std::min(n, rnd(2, 5)); ++i) cyc.push_back(Variable(ids[i])); e.permute_space_dimensions(cyc); e.swap_space_dimensions(Variable(0), Variable(n - 1)); break; }
